@@ -838,6 +838,7 @@ struct Executor {
     void do_release(SesCtx &sc) {
         if (!sc.created || sc.released) return;
         const char *pl = sc.s->codec == C_2D ? "C16" : "C08";
+        if (sc.configured && sc.s->role == R_DEC && sc.k > 2000) observe_decoder(sc, "QUERY", -1, 0, false);   // refresh the amortised view
         if (sc.configured && sc.s->role == R_DEC) {
             // the application collects what it owns before releasing (API: decoded source symbols are its to free)
             status(&sc, "query", false);
